@@ -115,7 +115,7 @@ Qed.
 (** * The components of one round *)
 Section F0K.
 Variable fb : flat.
-Hypothesis HF : frag0 fb = true.
+Hypothesis HF : frag1 fb = true.
 Hypothesis Hq : 0 < f0_q fb.
 
 Local Notation q := (f0_q fb).
@@ -180,7 +180,7 @@ Proof.
   - intros [pi [Hpi Hin]]. apply in_seq in Hpi. apply in_map_iff in Hin. destruct Hin as [ind [E Hind]].
     inversion E; subst. apply ranges_product_In in Hind. split; [lia|]. split; [reflexivity|].
     unfold f0_inds in Hind. clear - Hind.
-    remember (map (fun f => (Z.of_nat (nlevels fb f) ^ Z.of_nat tc)%Z) ubi) as ss eqn:Es.
+    remember (map (fun f => (Z.of_nat (length (f0_L fb f)) ^ Z.of_nat tc)%Z) ubi) as ss eqn:Es.
     revert Es. generalize ubi. induction Hind as [|s x ss' xs' Hx Hrest IH]; intros us Es; destruct us; try discriminate; [constructor|].
     cbn [map] in Es. inversion Es; subst. constructor; [exact Hx | apply IH; reflexivity].
   - intros (Hc0 & Hc1 & Hc2). exists (Z.to_nat c0). split; [apply in_seq; lia|].
